@@ -131,6 +131,27 @@ def _work(args):
         if got != ref:
             findings.append(('C11.chunk-works-with-its-own-snapshot',
                              f'with every leaf given per call the result depends on the global: differs in {[x for x in ref if ref.get(x) != got.get(x)] or list(set(ref) ^ set(got))}'))
+    # a chunk obtained without per-call parameters shares no mutable object with the global (list leaves included)
+    if k % 3 == 0:
+        with warnings.catch_warnings():
+            warnings.simplefilter('ignore')
+            try:
+                for how_, c2 in (('run', ampycloud.run(scenes.make_frame(rows))), ('CeiloChunk', __import__('ampycloud').data.CeiloChunk(scenes.make_frame(rows)))):
+                    def walk(a, b, path=()):
+                        out = []
+                        if isinstance(a, (dict, list)) and a is b:
+                            out.append('.'.join(map(str, path)) or '<root>')
+                        if isinstance(a, dict) and isinstance(b, dict):
+                            for key in a:
+                                if key in b:
+                                    out += walk(a[key], b[key], path + (key,))
+                        return out
+                    shared = walk(c2.prms, dynamic.AMPYCLOUD_PRMS)
+                    if shared:
+                        findings.append(('C11.snapshot-shares-nothing-with-the-global',
+                                         f'{how_}(data) without per-call parameters: chunk.prms and the global share {shared[:4]}'))
+            except Exception as e:
+                findings.append(('C11.run-raised', f'{type(e).__name__}'))
     if frame_fingerprint(df) != fp_before:
         findings.append(('C11.caller-frame-untouched', f'the caller DataFrame changed (values, dtypes, columns, index or buffers); route {route}, layout {layouts}'))
     if sysworld.observe('x', [('C', p)]) != p_before:
